@@ -464,6 +464,46 @@ func (f *frame) frameObligations(ct *Contract, entry *State) {
 func sameCallees(fn *ssa.Function) []string {
 	seen := map[string]bool{}
 	var out []string
+	// the call ghosts count the calls executed while this root is verified, including those of helpers that are
+	// inlined into it: start all of them at zero (names reachable through static callees, a few levels deep)
+	var visit func(g *ssa.Function, depth int)
+	visited := map[*ssa.Function]bool{}
+	visit = func(g *ssa.Function, depth int) {
+		if g == nil || visited[g] || depth > 4 {
+			return
+		}
+		visited[g] = true
+		for _, b := range g.Blocks {
+			for _, ins := range b.Instrs {
+				c, ok := ins.(ssa.CallInstruction)
+				if !ok {
+					continue
+				}
+				n := ""
+				if sc := c.Common().StaticCallee(); sc != nil {
+					n = sc.Name()
+					if sc.Pkg != nil && strings.HasPrefix(sc.Pkg.Pkg.Path(), modPath) {
+						visit(sc, depth+1)
+					}
+				} else if c.Common().IsInvoke() {
+					n = c.Common().Method.Name()
+				}
+				if n != "" && !seen[n] {
+					seen[n] = true
+					out = append(out, n)
+				}
+			}
+		}
+	}
+	for _, b := range fn.Blocks {
+		for _, ins := range b.Instrs {
+			if c, ok := ins.(ssa.CallInstruction); ok {
+				if sc := c.Common().StaticCallee(); sc != nil && sc.Pkg != nil && strings.HasPrefix(sc.Pkg.Pkg.Path(), modPath) {
+					visit(sc, 1)
+				}
+			}
+		}
+	}
 	for _, b := range fn.Blocks {
 		for _, ins := range b.Instrs {
 			if c, ok := ins.(ssa.CallInstruction); ok {
